@@ -429,6 +429,9 @@ def gen_er(rng, tier, i):
             replace.append([a, b])
     if sub in ("ignore", "replace_ignore"):
         ignore = rng.sample(ids + [77], rng.randint(1, 2))
+    if sub == "replace_ignore":
+        # order-directed: the ignore list names the source or the target of a replacement
+        ignore = [rng.choice(replace[0])] + [x for x in ignore[:1] if x not in replace[0]]
     costs = {"nist": "nist", "tie_costs": "tie"}.get(sub, rng.choice(["default", "default", "ones", "cheap_sub", "skew", "nist"]))
     per_utt = sub in ("per_utt", "per_utt_distances") or (sub in ("tie_costs", "prefix") and rng.random() < 0.4)
     distances = sub in ("distances", "per_utt_distances") or (sub in ("nist", "replace") and rng.random() < 0.3)
@@ -496,6 +499,12 @@ def gen_subset(rng, tier, i, mode=None):
     F = rng.randint(1, 3)
     # equal lengths on purpose: ties are broken by id
     feats = gen_feats(rng, utts, F, 1, 4 if rng.random() < 0.6 else 9)
+    by_len = mode.startswith(("shortest", "longest"))
+    if by_len and n >= 3 and rng.random() < 0.7:
+        # tie-directed: two lengths only, so that the cut falls inside a group of equal lengths (ties -> by id)
+        a = rng.randint(1, 4)
+        for u in utts:
+            feats[u] = feats[u][:1] * (a if rng.random() < 0.6 else a + 1)
     only = rng.random() < 0.3
     have_ali = (not only) and rng.random() < 0.7
     have_ref = (not only) and rng.random() < 0.7
@@ -518,6 +527,11 @@ def gen_subset(rng, tier, i, mode=None):
             arg = ["not-there"]
     elif mode.endswith("_n"):
         arg = rng.choice([0, 1, n - 1, n, n + 3, rng.randint(0, n)])
+        if by_len and n >= 3 and rng.random() < 0.7:
+            # put the cut strictly inside a group of equal lengths whenever one has >= 2 members
+            lens = sorted((len(feats[u]) for u in utts), reverse=mode.startswith("longest"))
+            inside = [c for c in range(1, n) if lens[c - 1] == lens[c]]
+            arg = rng.choice(inside) if inside else rng.randint(1, n - 1)
         arg = max(arg, 0)
     else:
         arg = pick_ratio(rng, n)
